@@ -854,9 +854,6 @@ func (s *session) onDisconnect() {
 		s.messageOut = nil
 	}
 
-	// s.messageIn is buffered so we need to drain it before disconnection
-	s.drainMessageIn()
-
 	s.messageIn = nil
 }
 
